@@ -385,7 +385,16 @@ func (in *inliner) expandExpr(h *helperInfo, call *ast.CallExpr) ast.Expr {
 	}, nil)
 	in.n++
 	holder.X = foldBoolConsts(in.info, holder.X)
-	return holder
+	// parentheses are only needed around operators
+	switch holder.X.(type) {
+	case *ast.BinaryExpr:
+		return holder
+	case *ast.UnaryExpr:
+		if u := holder.X.(*ast.UnaryExpr); u.Op != token.AND {
+			return holder
+		}
+	}
+	return holder.X
 }
 
 func (in *inliner) rewriteExprs(n ast.Node) {
@@ -854,9 +863,31 @@ func (in *inliner) pureTempsIn(fd *ast.FuncDecl) int {
 				// the builtins len, cap, min and max are as pure as their operands
 				id, isID := x.Fun.(*ast.Ident)
 				_, isBuiltin := info.Uses[id].(*types.Builtin)
-				if !isID || !isBuiltin || (id.Name != "len" && id.Name != "cap" && id.Name != "min" && id.Name != "max") {
-					ok = false
+				if isID && isBuiltin && (id.Name == "len" || id.Name == "cap" || id.Name == "min" || id.Name == "max") {
+					return true
 				}
+				if tv, isT := info.Types[x.Fun]; isT && tv.IsType() {
+					return true // a conversion
+				}
+				// accessor-style methods without arguments (x.String(), rule.Name(), e.Type()) and the
+				// string helpers of the standard library compute a value from their operands and
+				// nothing else
+				if fn := Callee(info, x); fn != nil {
+					sig := fn.Type().(*types.Signature)
+					if sig.Recv() != nil && len(x.Args) == 0 && sig.Results().Len() == 1 {
+						switch fn.Name() {
+						case "String", "Error", "Name", "Type", "Lines", "Kind", "EffectivePath":
+							return true
+						}
+					}
+					if sig.Recv() == nil && fn.Pkg() != nil && fn.Pkg().Path() == "strings" && sig.Results().Len() == 1 {
+						switch fn.Name() {
+						case "TrimSpace", "ToLower", "ToUpper", "TrimPrefix", "TrimSuffix", "Join", "Repeat":
+							return true
+						}
+					}
+				}
+				ok = false
 			case *ast.FuncLit, *ast.CompositeLit, *ast.TypeAssertExpr, *ast.SliceExpr:
 				ok = false
 			case *ast.UnaryExpr:
@@ -885,6 +916,11 @@ func (in *inliner) pureTempsIn(fd *ast.FuncDecl) int {
 			case *ast.CallExpr:
 				for _, a := range y.Args {
 					visit(a)
+				}
+				if sel, ok := y.Fun.(*ast.SelectorExpr); ok {
+					if _, isPkg := info.Uses[identOf(sel.X)].(*types.PkgName); !isPkg {
+						visit(sel.X)
+					}
 				}
 				return
 			case *ast.IndexExpr:
@@ -921,18 +957,28 @@ func (in *inliner) pureTempsIn(fd *ast.FuncDecl) int {
 	}
 	cands := map[types.Object]ast.Expr{}
 	remove := map[ast.Stmt]bool{}
+	pending := map[*ast.AssignStmt]int{}
 	for o, ds := range defs {
 		if len(ds) != 1 || ds[0] == nil || addrTaken[o] {
 			continue
 		}
 		as := ds[0]
-		if as.Tok != token.DEFINE || len(as.Lhs) != 1 || len(as.Rhs) != 1 {
+		if as.Tok != token.DEFINE || len(as.Lhs) != len(as.Rhs) {
+			continue
+		}
+		idx := -1
+		for i, l := range as.Lhs {
+			if objOf(info, l) == o {
+				idx = i
+			}
+		}
+		if idx < 0 {
 			continue
 		}
 		if v, ok := o.(*types.Var); !ok || v.IsField() || v.Parent() == nil || v.Pkg() == nil || v.Parent() == v.Pkg().Scope() {
 			continue
 		}
-		e := as.Rhs[0]
+		e := as.Rhs[idx]
 		if _, isLit := ast.Unparen(e).(*ast.BasicLit); isLit {
 			continue // a named constant-like local is left alone
 		}
@@ -953,7 +999,17 @@ func (in *inliner) pureTempsIn(fd *ast.FuncDecl) int {
 			continue
 		}
 		cands[o] = e
-		remove[as] = true
+		pending[as]++
+	}
+	// a tuple definition disappears only when every variable it defines is substituted
+	for as, k := range pending {
+		if k == len(as.Lhs) {
+			remove[as] = true
+		} else {
+			for _, l := range as.Lhs {
+				delete(cands, objOf(info, l))
+			}
+		}
 	}
 	if len(cands) == 0 {
 		return 0
@@ -981,7 +1037,7 @@ func (in *inliner) pureTempsIn(fd *ast.FuncDecl) int {
 			c, _ := in.copyNode(e)
 			ce := c.(ast.Expr)
 			switch ce.(type) {
-			case *ast.Ident, *ast.SelectorExpr, *ast.IndexExpr, *ast.ParenExpr:
+			case *ast.Ident, *ast.SelectorExpr, *ast.IndexExpr, *ast.ParenExpr, *ast.CallExpr, *ast.BasicLit:
 			default:
 				p := &ast.ParenExpr{X: ce, Lparen: id.Pos(), Rparen: id.End()}
 				info.Types[p] = info.Types[ce]
